@@ -106,7 +106,12 @@ def check(ctx, adt=T.ANIM_ADT, F=None):
     ctx.ob("R1", "animator-state/no-extra-fields", not extra,
            "the animator must carry no state besides (timelines, state, values, pause record, time): extra %s" % extra,
            adt_["span"], what="extra-state-fields")
-    ctx.notes.append("R3 (Timeline::update is a function of (timeline, time)) is C09/R1-R3")
+    # R3: what advance evaluates is a merged timeline: it must apply every component on every evaluation, whatever the time
+    # (a component skipped "because it has ended" leaves whatever the previous frame wrote) (C12/R1)
+    if adt == T.ANIM_ADT:
+        from rules import c12
+        c12.check_loop_method(ctx, F, "R3", "update", mutable=False)
+    ctx.notes.append("R3 (a generated timeline's update is a function of (timeline, time)) is C09/R1-R3")
     ctx.notes.append("not decided: the size of the f32->Duration rounding error of each step (allowed by the property)")
 
 
